@@ -209,7 +209,8 @@ int evaluate_module(void *data, const char *key, void *value) {
             start(mod, true);
         }
     }
-    return ret;
+    /* Never stop iterating on modules: what a module's on_eval() says does not concern the others */
+    return 0;
 }
 
 int start(m_mod_t *mod, bool starting) {
